@@ -391,11 +391,9 @@ impl<'a> CrlfLines<'a> {
                 return Some(left);
             }
         }
-        if self.slice.is_empty() {
-            None
-        } else {
-            Some(mem::take(&mut self.slice))
-        }
+        // a line is complete only when its CRLF terminator has arrived:
+        // a trailing partial line must not be taken for a line, more data may follow
+        None
     }
 
     /// split by pattern and return previous bytes
